@@ -258,7 +258,26 @@ func TestVerifRecC11(t *testing.T) {
 			t1.Mul(P, vscalar(sa))
 			t2.Mul(RISTRETTO_BASEPOINT_POINT, vscalar(sb))
 			t3.Neg(Q)
-			o.Sum([]*RistrettoPoint{Q, &t1, &t3, &t2})
+			// the receiver is no summand / the second / the last summand (it must be read before it is written): all three,
+			// each its own event
+			for v := 0; v < 3; v++ {
+				var oo RistrettoPoint
+				switch v {
+				case 0:
+					oo.Sum([]*RistrettoPoint{Q, &t1, &t3, &t2})
+				case 1:
+					oo.Set(&t1)
+					oo.Sum([]*RistrettoPoint{Q, &oo, &t3, &t2})
+				case 2:
+					oo.Set(&t2)
+					oo.Sum([]*RistrettoPoint{Q, &t1, &t3, &oo})
+				}
+				if v < 2 {
+					rgroup(kind, sa, sb, P, &oo)
+				} else {
+					o.Set(&oo)
+				}
+			}
 		case "select":
 			var t1, t2 RistrettoPoint
 			t1.DoubleScalarMulBasepointVartime(vscalar(sa), P, vscalar(sb))
